@@ -8,6 +8,15 @@ import sys
 HERE = os.path.dirname(os.path.dirname(os.path.abspath(__file__)))
 
 CHECKS = {
+    "C03": dict(
+        technique="TLC model checking of Footprint.tla/Scheduler.tla/MC_C03.tla (all footprint-class tuples, Radix and Legacy in lock-step vs declarative greedy oracle) + spec->impl replay through the raw scheduler hook + trace validation of drain order (SchedulerTrace.tla)",
+        text="TLC enumerates every pair (512^2 in thorough), triple and quadruple of footprint classes and proves on the model that the transcribed Radix and Legacy reserve "
+             "loops equal the declarative canonical greedy independent set with exact, non-empty blocking witnesses, that a rejected candidate marks nothing, and that the three "
+             "conflict predicates in the code are one symmetric relation; every enumerated tuple is then driven into the real DeterministicScheduler (both kinds, both enqueue "
+             "orders) and reserve_for_receipt and must reproduce those decisions and witnesses. Drain order for adversarial key sets across the 1024 threshold is validated by a "
+             "trace spec (strictly increasing lexicographic order of the last-wins key set).",
+        note="One resource per class and two instances (conflicts depend only on key equality); hooks Engine::verif_enqueue_raw / verif_drain_reserve; raw rule ids are big-endian compact ids.",
+        design="3 C03"),
     "C04": dict(
         technique="TLC model checking of Graph.tla/MC_C04.tla (all ordered state pairs) + spec->impl replay of every pair into diff_state/apply_to_state",
         text="Every ordered pair (a,b) of reachable well-formed states of bounded graph universes is visited by TLC; the patch law "
